@@ -849,7 +849,7 @@ def ch_fuzz_http(ctx) -> Channel:
         fz.long_strings()
         fz.sweep()
         fz.every_option()
-        fz.random_gets(ctx.scale(1500, 40000))
+        fz.random_gets(ctx.scale(1500, 32000))
         fz.stored_defaults(ctx.scale(20, 300))
         before = c16_http.pools(fz.app)
         fz.mutating(ctx.scale(250, 4000))
@@ -901,7 +901,7 @@ def ch_fuzz_mp4(ctx) -> Channel:
         count_cases += M.count_cases(k, S[k], None if ctx.thorough else quick_values)
     ch.count("count-field cases", len(count_cases))
     # ---- seeded mutations
-    n_lib, n_insp, n_idx = ctx.scale(150, 4500), ctx.scale(50, 1200), ctx.scale(40, 1000)
+    n_lib, n_insp, n_idx = ctx.scale(150, 3500), ctx.scale(50, 1000), ctx.scale(40, 800)
     rand_cases = []
     for _ in range(n_lib):
         k = rng.choice(sorted(S))
